@@ -103,6 +103,44 @@ def replay_of(r, what, **extra):
     return p
 
 
+def loop_template_programs(rnd, n):
+    """templates inside loops with break / continue leaving a hole, and templates holding whole loops: values known by construction"""
+    out = []
+    for _ in range(n):
+        N, K = rnd.randrange(3, 70), rnd.randrange(2, 6)
+        q = rnd.choice(["`", "\x1e"])
+        fam = rnd.randrange(6)
+        if fam == 0:      # continue from inside a hole: the assignment of that round does not happen
+            src = f"r=''; i=0; while i<{N} {{ i=i+1; r = r + {q}<{{% if i%{K}==0 {{ continue }} %}}{{i}}>{q} }}; r"
+            exp = repr("".join(f"<{i}>" for i in range(1, N + 1) if i % K))
+        elif fam == 1:    # break from inside a hole
+            B = rnd.randrange(1, N + 1)
+            src = f"r=''; i=0; while i<{N} {{ i=i+1; r = r + {q}<{{% if i=={B} {{ break }} %}}{{i}}>{q} }}; [r, i]"
+            exp = "[" + repr("".join(f"<{i}>" for i in range(1, B))) + f", {B}]"
+        elif fam == 2:    # a hole that holds a whole loop with an inner template and an exit
+            src = f"{q}A{{% i=0; while i<{N} {{ i=i+1; {q2(q)}x{{% if i=={K} {{ continue }} %}}{q2(q)} }}; i %}}B{q}"
+            exp = repr(f"A{N}B")
+        elif fam == 3:    # after such a loop a statement block still yields null, a later template still works
+            if rnd.random() < 0.5:
+                src = f"i=0; while i<{N} {{ i=i+1; x={q}a{{% if i%{K}==0 {{ continue }} %}}{q} }}; if 1 {{ 2 }}"
+                exp = "null"
+            else:
+                src = f"i=0; while i<{N} {{ i=i+1; x={q}a{{% if i%{K}==0 {{ continue }} %}}{q} }}; {q}p{{i}}q{q}"
+                exp = repr(f"p{N}q")
+        elif fam == 4:    # the loop statement itself as the program's value
+            src = f"i=0; while i<{N} {{ i=i+1; x={q}a{{% break %}}{q} }}"
+            exp = "null"
+        else:             # both exits, nested if inside the hole
+            src = (f"r=''; i=0; while i<{N} {{ i=i+1; r = r + {q}{{% if i%2==0 {{ if i%{K}==0 {{ continue }} }}; if i>{N - 1} {{ break }} %}}{{i}},{q} }}; r")
+            exp = repr("".join(f"{i}," for i in range(1, N) if not (i % 2 == 0 and i % K == 0)))
+        out.append((src, exp))
+    return out
+
+
+def q2(q):
+    return "\x1e" if q == "`" else "`"
+
+
 def run(res, tier, seed):
     common.build_harness()
     quick = tier == "quick"
@@ -184,6 +222,22 @@ def run(res, tier, seed):
         if found < 4:
             res.violation(p)
         found += 1
+
+    # templates x loops x break / continue: values known by construction
+    import random as _random
+    import k2cases
+    import c02 as _c02
+    lt = loop_template_programs(_random.Random(seed * 31 + 7), 120 if tier == "quick" else 1500)
+    lt_rows = k2cases.go_run([k2cases.mk_input(src, oplimit=200000) for src, _ in lt])
+    lt_bad = 0
+    for (src, exp), row in zip(lt, lt_rows):
+        st = (row.get("steps") or [{}])[-1]
+        got = _c02.go_value(st.get("val")) if st.get("ok") else "error: " + str(st.get("err") or st.get("perr") or row.get("fatal") or "?")
+        if got != exp:
+            lt_bad += 1
+            violate({"what": "a template inside a loop (break / continue leaving a hole, or a hole holding a loop) does not evaluate to the "
+                             "concatenation of its text and hole values", "source_text": src, "source_hex": src.encode().hex(), "expected": exp, "got": got})
+    res.cov["loop_template_programs"] = {"programs": len(lt), "disagreements": lt_bad}
 
     for r in probe + lit + raw:
         if r.get("panic"):
